@@ -160,6 +160,20 @@ def main() -> int:
         except Exception as e:      # noqa: BLE001
             interp = {"error": str(e)}
 
+    kernel = None
+    if args.tier == "thorough" and not args.skip_lean and common.DRIVER_SAMPLES:
+        # the compiled driver against the Lean KERNEL's own evaluation of the same model definitions the theorems are
+        # about: closed statements `model input = output the driver printed`, proved by `decide +kernel` (tab / bits / shp)
+        try:
+            import kernelcheck
+            kernel = kernelcheck.check(common.DRIVER_SAMPLES, max_statements=40, timeout=300)
+            if kernel.get("failed") or kernel.get("errors"):
+                infra_errors.append("compiled driver and the Lean kernel disagree: "
+                                    f"{[(f['statement'], f['verdict'], f['source'][-1]) for f in kernel['failed'][:2]] or kernel['errors'][:1]}")
+            kernel = {k: v for k, v in kernel.items() if k not in ("file",)}
+        except Exception as e:      # noqa: BLE001
+            kernel = {"error": str(e)}
+
     violations = [dict(v, stream=r.name, stream_module=getattr(r, "module", None)) for r in results for v in r.violations]
     disagreements = [dict(d, stream=r.name) for r in results for d in r.disagreements] + crashes
 
@@ -255,6 +269,7 @@ def main() -> int:
             "infrastructure_errors": infra_errors,
             "changed_anchor_files": changed_files,
             "driver_vs_interpreter": interp,
+            "driver_vs_kernel": kernel,
         },
         "assumptions": spec.get("assumptions", []),
         "wall_s": round(time.time() - t0, 2),
